@@ -201,6 +201,18 @@ func runBoot(sc M) {
 				fail("Unmarshal: %v", err)
 				return nil
 			}
+			// one load-option value decoded into again and again (a loop over BootOrder with the variable declared outside): it describes the
+			// option decoded last, nothing of the earlier ones
+			if err := reusedLoadOption.Unmarshal(bytes.NewBuffer(append([]byte{}, b.Bytes()...))); err != nil || len(reusedLoadOption.FilePath) != len(lo.FilePath) ||
+				reusedLoadOption.Description != lo.Description || reusedLoadOption.Attributes != lo.Attributes || reusedLoadOption.FilePathListLength != lo.FilePathListLength {
+				fail("decoding into a load-option value that was used before gives %d nodes / %q, a fresh value %d nodes / %q (%v)", len(reusedLoadOption.FilePath), reusedLoadOption.Description, len(lo.FilePath), lo.Description, err)
+			} else {
+				for k := range lo.FilePath {
+					if fmt.Sprintf("%T%+v", reusedLoadOption.FilePath[k], reusedLoadOption.FilePath[k]) != fmt.Sprintf("%T%+v", lo.FilePath[k], lo.FilePath[k]) {
+						fail("node %d of a reused load-option value differs from the fresh decode", k)
+					}
+				}
+			}
 			// the two-step spelling (header, then path list from the same buffer) and the path list alone through a plain io.Reader
 			// decode to the same option
 			{
@@ -291,6 +303,8 @@ func runBoot(sc M) {
 	emit(ev)
 	_ = strings.ToUpper
 }
+
+var reusedLoadOption device.EFILoadOption
 
 // hdSig: the 16 signature bytes of a hard-drive node; "z0" starts (in either byte order of its first group) with a zero digit
 func hdSig(id string) []byte {
